@@ -80,6 +80,34 @@ func init() {
 		}
 		return x.o.ConstI(IntTy{64, false}, k)
 	}
+	extSchemas["(*strings.Builder).Len"] = func(x *Exec, st *State, fn *ssa.Function, args []Val, c *ssa.CallCommon) Val {
+		return x.builderSlice(st, args[0]).Len
+	}
+	extSchemas["(*strings.Builder).String"] = func(x *Exec, st *State, fn *ssa.Function, args []Val, c *ssa.CallCommon) Val {
+		return x.seqView(st, x.builderSlice(st, args[0]))
+	}
+	extSchemas["(*strings.Builder).WriteRune"] = func(x *Exec, st *State, fn *ssa.Function, args []Val, c *ssa.CallCommon) Val {
+		o := x.o
+		p := args[0].(PtrVal)
+		cur := x.builderSlice(st, args[0])
+		r := args[1].(*Term)
+		// only ASCII runes are modelled (one byte); anything else is outside the schema's domain
+		x.oblige("pre", "Builder.WriteRune", nil, "rune written to the strings.Builder is ASCII (domain of the assumed contract)", st.Guard, o.And(o.Le(o.Int(0), r), o.Lt(r, o.Int(128))))
+		st.Cells[p.Obj] = x.appendByte(st, cur, r)
+		return TupleVal{o.Int(1), x.zeroVal(types.Universe.Lookup("error").Type())}
+	}
+	extSchemas["strings.TrimSuffix"] = func(x *Exec, st *State, fn *ssa.Function, args []Val, c *ssa.CallCommon) Val {
+		o := x.o
+		s := args[0].(StrVal)
+		suf, ok := args[1].(StrVal)
+		if !ok || len(suf.Alts) != 1 {
+			x.fail("strings.TrimSuffix: suffix must be a constant")
+		}
+		k := int64(len(suf.Alts[0].S))
+		tail := StrVal{Arr: s.Arr, Off: o.Add(s.Off, o.Sub(s.Len, o.Int(k))), Len: o.Int(k)}
+		has := o.And(o.Le(o.Int(k), s.Len), x.seqEq(tail, x.constString(suf.Alts[0].S)))
+		return StrVal{Arr: s.Arr, Off: s.Off, Len: o.Ite(has, o.Sub(s.Len, o.Int(k)), s.Len)}
+	}
 	extSchemas["strings.TrimLeft"] = schemaTrimLeft
 	extSchemas["strings.Compare"] = schemaStringsCompare
 	extSchemas["(*sync.Mutex).Lock"] = schemaMutexLock
@@ -678,4 +706,23 @@ func schemaStringsCompare(x *Exec, st *State, fn *ssa.Function, args []Val, c *s
 	}
 	x.fail("strings.Compare schema needs `mode int`")
 	return nil
+}
+
+// strings.Builder: an object whose cell is the byte slice built so far (a zero Builder is empty)
+func (x *Exec) builderSlice(st *State, v Val) SliceVal {
+	p, ok := v.(PtrVal)
+	if !ok || p.Obj == nil {
+		x.fail("strings.Builder method on an unknown builder")
+	}
+	switch c := st.Cells[p.Obj].(type) {
+	case SliceVal:
+		return c
+	case StructVal:
+		// the zero value of strings.Builder
+		z := x.zeroVal(types.NewSlice(typByte)).(SliceVal)
+		st.Cells[p.Obj] = z
+		return z
+	}
+	x.fail("strings.Builder in an unexpected state (%T)", st.Cells[p.Obj])
+	return SliceVal{}
 }
